@@ -242,6 +242,17 @@ def den (wd : Width) (w : World) (b : Nat) : S :=
 
 def addMany (wd : Width) (w : World) (b : Nat) (xs : List Nat) : World := xs.foldl (fun w x => add wd w b x) w
 
+/-- `Clone()`: a deep copy — fresh cells, fresh array — registered as bitmap `c` -/
+def cloneBm (w : World) (b c : Nat) : World :=
+  let r := (w.arr b).foldl (fun (acc : World × Arr) p =>
+    let a := acc.1.alloc (acc.1.cell p.2)
+    (a.1, acc.2 ++ [(p.1, a.2)])) (w, [])
+  r.1.setArr c r.2
+
+/-- what a thread-safe wrapper does for `r.Xor(b)` when `b` is a wrapper: `snapshotOperand` clones `b` (as bitmap `tmp`),
+the native in-place Xor then runs against the clone -/
+def xorViaSnapshot (wd : Width) (w : World) (r b tmp : Nat) : Option World := xor wd (cloneBm w b tmp) r tmp
+
 /-- a world with the given bitmaps, built through the API -/
 def build (wd : Width) (sets : List (Nat × List Nat)) : World :=
   sets.foldl (fun w p => addMany wd (w.new p.1) p.1 p.2) {}
